@@ -180,7 +180,8 @@ class FrameV:
             return self._like(length, lambda i: V.arith("+", start, i if step == 1 else V.arith("*", i, step)))
         if isinstance(key, SArr) and key.dtype != "bool":
             kf = key.snapshot()
-            return self._like(key.shape[0], lambda i: A.norm_index(kf((i,)), self.n))
+            by_code = bool(V.SAFETY[0])
+            return self._like(key.shape[0], lambda i: A.norm_index(kf((i,)), self.n, force=by_code))
         if isinstance(key, (list, tuple)):
             ka = A.from_nested(list(key), "int")
             return self[ka]
@@ -196,6 +197,216 @@ class FrameV:
         return self._like(m, lambda i: V.arith("+", off, i))
 
 
+# ---------------------------------------------------------------------------
+# ghost log of row-selecting / reordering operations: (op, source frame, result frame, count, map)
+ROWMAPS = []
+
+
+def _raise(name, msg):
+    from . import symex as X
+    raise X.PyRaise(X.Obj(X.BUILTIN_EXC[name], {"args": (msg,)}))
+
+
+class ExprV:
+    """an opaque polars expression: evaluated on a frame it is an uninterpreted column (any row-wise function)"""
+    _pyvc_native = True
+
+    def __init__(self, name="expr"):
+        self.name = name
+
+    def _derive(self, *a, **k):
+        return ExprV(self.name)
+
+    def __getattr__(self, item):
+        if item.startswith("_"):
+            raise AttributeError(item)
+        return self._derive
+
+    __add__ = __sub__ = __mul__ = __truediv__ = __lt__ = __le__ = __gt__ = __ge__ = __eq__ = __ne__ = __and__ = \
+        __or__ = __invert__ = __neg__ = _derive
+    __hash__ = object.__hash__
+
+    def column_on(self, frame, kind="bool"):
+        rng = {"real": z3.RealSort(), "int": z3.IntSort(), "bool": z3.BoolSort()}[kind]
+        f = z3.Function(V.fresh_name("exprcol"), z3.IntSort(), rng)
+        return SArr((frame.n,), lambda idx: Sym(f(V.lift(idx[0]))), kind)
+
+
+def _mask_of(frame, pred):
+    if isinstance(pred, ExprV):
+        if getattr(pred, "_mask_for", None) is not None and pred._mask_for[0] is frame:
+            return pred._mask_for[1]
+        m = pred.column_on(frame, "bool")
+        pred._mask_for = (frame, m)
+        return m
+    if isinstance(pred, SeriesV):
+        return pred.arr
+    if isinstance(pred, str):
+        if pred not in frame.cols:
+            _raise("ColumnNotFoundError", pred)
+        return frame.cols[pred]
+    if isinstance(pred, SArr):
+        return pred
+    if isinstance(pred, (list, tuple)):
+        return A.from_nested(list(pred), "bool")
+    raise Unsupported(f"filter predicate {type(pred).__name__}")
+
+
+def _filter(self, *preds, **constraints):
+    if len(preds) != 1 or constraints:
+        raise Unsupported("filter with several predicates")
+    mask = _mask_of(self, preds[0])
+    if mask.ndim != 1:
+        _raise("ShapeError", "filter predicate must be 1-d")
+    same = V.compare("==", mask.shape[0], self.n)
+    p = V.PATH[0]
+    if same is not True:
+        if same is False or (p is not None and not p.branch(same)):
+            _raise("ShapeError", "filter predicate length differs from the frame height")
+    cnt, sel, inv = A.mask_selection(mask)
+    out = self._like(cnt, sel)
+    ROWMAPS.append(("filter", self, out, cnt, sel))
+    return out
+
+
+def _perm(n, name, injective_only=False, count=None):
+    """index map [0, count) -> [0, n): injective (sample) or bijective (sort, count == n) -- trusted polars contract"""
+    cnt = n if count is None else count
+    f = z3.Function(V.fresh_name(name), z3.IntSort(), z3.IntSort())
+    g = z3.Function(V.fresh_name(name + "_inv"), z3.IntSort(), z3.IntSort())
+    j, i = z3.Int(V.fresh_name("pj")), z3.Int(V.fresh_name("pi"))
+    p = V.PATH[0]
+    if p is not None:
+        nn, cc = V.lift(n), V.lift(cnt)
+        p.conds.append(z3.ForAll([j], z3.Implies(z3.And(j >= 0, j < cc), z3.And(f(j) >= 0, f(j) < nn, g(f(j)) == j))))
+        if not injective_only:
+            p.conds.append(z3.ForAll([i], z3.Implies(z3.And(i >= 0, i < nn), z3.And(g(i) >= 0, g(i) < cc, f(g(i)) == i))))
+    return (lambda jj: Sym(f(V.lift(jj)))), (lambda ii: Sym(g(V.lift(ii))))
+
+
+def _sort(self, by, *more_by, descending=False, nulls_last=False, **kw):
+    keys = list(by) if isinstance(by, (list, tuple)) else [by]
+    keys += list(more_by)
+    for k in keys:
+        if isinstance(k, str) and k not in self.cols:
+            _raise("ColumnNotFoundError", k)
+    fwd, inv = _perm(self.n, "sortperm")
+    out = self._like(self.n, fwd)
+    # ordered by the first key (ties / further keys: polars' business)
+    k0 = keys[0]
+    if isinstance(k0, str) and not is_sym(descending):
+        col = out.cols[k0]
+        j = z3.Int(V.fresh_name("sj"))
+        a, b = col.at((Sym(j),)), col.at((Sym(j + 1),))
+        le = V.compare(">=" if descending else "<=", a, b)
+        p = V.PATH[0]
+        if p is not None and is_sym(le):
+            p.conds.append(z3.ForAll([j], z3.Implies(z3.And(j >= 0, j + 1 < V.lift(self.n)), V._bool_term(le))))
+    ROWMAPS.append(("sort", self, out, self.n, fwd))
+    return out
+
+
+def _sample(self, n=None, *, fraction=None, with_replacement=False, shuffle=False, seed=None):
+    if fraction is not None or with_replacement:
+        raise Unsupported("sample with fraction / replacement")
+    if n is None:
+        n = 1
+    p = V.PATH[0]
+    too_many = V.compare(">", n, self.n)
+    if too_many is True or (is_sym(too_many) and p is not None and p.branch(too_many)):
+        _raise("ShapeError", "cannot take a larger sample than the total population when `with_replacement=false`")
+    fwd, inv = _perm(self.n, "sample", injective_only=True, count=n)
+    out = self._like(n, fwd)
+    ROWMAPS.append(("sample", self, out, n, fwd))
+    return out
+
+
+def _to_numpy(self, *a, **k):
+    names = list(self.cols)
+    arrs = [self.cols[c].snapshot() for c in names]
+    kinds = {self.cols[c].dtype for c in names}
+    kind = "real" if "real" in kinds or not kinds else ("int" if "int" in kinds else "bool")
+    if not names:
+        return SArr((self.n, 0), lambda idx: 0, "real")
+
+    def fn(idx):
+        c = idx[1]
+        if isinstance(c, int):
+            return arrs[c]((idx[0],))
+        r = arrs[-1]((idx[0],))
+        for q in range(len(arrs) - 2, -1, -1):
+            r = V.ite(V.compare("==", c, q), arrs[q]((idx[0],)), r)
+        return r
+    return SArr((self.n, len(names)), fn, kind)
+
+
+def pl_concat(items, how="vertical", **kw):
+    """polars.concat of frames: vertical (same columns required) or diagonal (union of columns, missing values null:
+    an uninterpreted value per (column, row))"""
+    frames = list(items)
+    if not frames:
+        _raise("ValueError", "cannot concat empty list")
+    if how not in ("vertical", "diagonal", "vertical_relaxed", "diagonal_relaxed"):
+        raise Unsupported(f"pl.concat(how={how!r})")
+    names = []
+    for fr in frames:
+        for c in fr.cols:
+            if c not in names:
+                names.append(c)
+    if how.startswith("vertical"):
+        for fr in frames:
+            if list(fr.cols) != names:
+                _raise("ShapeError", "unable to vstack, column names / widths don't match")
+    total = 0
+    offs = []
+    for fr in frames:
+        offs.append(total)
+        total = V.arith("+", total, fr.n)
+    out = FrameV.__new__(FrameV)
+    out.n = total
+    out.cols = {}
+
+    def piece(getters, kind):
+        def fn(idx):
+            i = idx[0]
+            r = None
+            for k in range(len(frames) - 1, -1, -1):
+                v = getters[k]((V.arith("-", i, offs[k]),))
+                if r is None:
+                    r = v
+                else:
+                    r = V.ite(V.compare("<", i, V.arith("+", offs[k], frames[k].n)), v, r)
+            return r
+        return SArr((total,), fn, kind)
+    for c in names:
+        kinds = [fr.cols[c].dtype for fr in frames if c in fr.cols]
+        kind = "real" if "real" in kinds else kinds[0]
+        rng = {"real": z3.RealSort(), "int": z3.IntSort(), "bool": z3.BoolSort()}[kind]
+        getters = []
+        for fr in frames:
+            if c in fr.cols:
+                getters.append(fr.cols[c].snapshot())
+            else:
+                nf = z3.Function(V.fresh_name(f"null_{c}"), z3.IntSort(), rng)
+                getters.append(lambda idx, nf=nf: Sym(nf(V.lift(idx[0]))))
+        out.cols[c] = piece(getters, kind)
+    out.rowid = piece([fr.rowid.snapshot() for fr in frames], "int")
+    ROWMAPS.append(("concat", tuple(frames), out, total, tuple(offs)))
+    return out
+
+
+FrameV.filter = _filter
+FrameV.sort = _sort
+FrameV.sample = _sample
+FrameV.to_numpy = _to_numpy
+FrameV.is_empty = lambda self: V.compare("==", self.n, 0)
+FrameV.width = property(lambda self: len(self.cols))
+
+
 def register(REG):
     REG["polars.DataFrame"] = FrameV
     REG["polars.Series"] = SeriesV
+    REG["polars.concat"] = pl_concat
+    REG["polars.col"] = lambda *a, **k: ExprV("col")
+    REG["polars.lit"] = lambda *a, **k: ExprV("lit")
+    REG["polars.Expr"] = ExprV
